@@ -24,7 +24,8 @@ M = [
  ("int_resize_ge", "pyins/strapdown.py", "        if required_size > size:", "        if required_size >= size:", ["C02"], "quiet-or-drift"),
  ("int_resize_exact_fit", "pyins/strapdown.py", "new_size = max(2 * size, required_size)", "new_size = required_size", ["C02"], "quiet-or-drift"),
  ("int_setpva_forgets_velocity", "pyins/strapdown.py", "        self.velocity_n[i] = pva[VEL_COLS]\n", "", ["C02"], "violation"),
- ("int_kernel_vd_zero_removed", "pyins/_numba_integrate.py", "            velocity_n[j + 1, 2] = 0.0", "            velocity_n[j + 1, 2] = V3", ["C13"], "violation"),
+ ("int_kernel_vd_keeps_previous", "pyins/_numba_integrate.py", "            velocity_n[j + 1, 2] = 0.0", "            velocity_n[j + 1, 2] = V3", ["C13"], "quiet-or-drift"),   # equivalent: the stored VD is always 0 in 2D
+ ("int_kernel_vd_integrates_dv", "pyins/_numba_integrate.py", "            velocity_n[j + 1, 2] = 0.0", "            velocity_n[j + 1, 2] = V3 + dv3", ["C13"], "violation"),
  ("em_correct_pva_vd_removed", "pyins/error_model.py", "        if not self.with_altitude:\n            velocity_n[2] = pva.VD\n", "", ["C13"], "violation"),
  ("meas_position_2d_slice_removed", "pyins/measurements.py", "        H = error_model.position_error_jacobian(pva, self.imu_to_antenna_b)\n        R = self.R\n        if not error_model.with_altitude:\n            z = z[:2]\n            H = H[:2]\n            R = R[:2, :2]",
   "        H = error_model.position_error_jacobian(pva, self.imu_to_antenna_b)\n        R = self.R\n        if not error_model.with_altitude:\n            z = z[:3]\n            H = H[:3]\n            R = R[:3, :3]", ["C13"], "violation"),
